@@ -502,4 +502,30 @@ CHECKS["C18"] = dict(
     thorough=dict(workers=16, cases=3000, maxsize=40),
 )
 
+CHECKS["C15"] = dict(
+    harness="C15_threads", sources=["props/C15_threads.cc", "shim/shim_stub.c", "pki/pki.cc"], variant="tsan",
+    trust_unconfirmed=r"ThreadSanitizer",
+    level="exploration", engine="ThreadSanitizer build of library + harness; rapidcheck-generated multi-thread workloads",
+    technique="concurrency fuzzing with a happens-before race detector as oracle: generated per-thread workloads on "
+              "distinct sockets (plus synchronised hand-over), ThreadSanitizer reports, per-thread data "
+              "integrity, socket-id uniqueness and resource accounting",
+    level_text="2-6 threads, each with its own servers and connections over ux, uxf, tcp, tls, utls, btcp, btls; "
+               "TLS credentials by value from three shared sets or from the XCM_TLS_CERT files, so threads hit and "
+               "miss the context cache concurrently; bursts of 5-29 connections (several threads together exceed "
+               "the 100 users of one shared eventfd); ledger-checked messages; attribute listing; closes, "
+               "including closing everything (pools torn down and rebuilt); hand-over of connections through a "
+               "mutex-protected queue. All threads start at a barrier; generated yields. At a final barrier the "
+               "number of control sockets must equal the number of open sockets (unique ids); afterwards "
+               "descriptors and control files are back to the start level. Schedules are perturbed, not owned: "
+               "silence is weak evidence.",
+    level_note="A ThreadSanitizer report is taken as a violation without the usual three-fold replay (races are "
+               "schedule-dependent; the detector does not depend on the race actually manifesting). Reports "
+               "entirely inside libssl/libcrypto/libcares are suppressed.",
+    rule=("case = thread count + up to 400 steps dealt round-robin to the threads. Non-trivial = at least 8 "
+          "connections were created by at least 2 threads running concurrently."),
+    assumptions=["no two threads ever use the same socket at the same time (hand-over goes through a mutex)"],
+    quick=dict(workers=8, cases=12, maxsize=400),
+    thorough=dict(workers=12, cases=200, maxsize=400),
+)
+
 NOT_APPLICABLE = []
